@@ -26,7 +26,7 @@ func init() {
 		Binary: "vgen",
 		Level:  "exploration",
 		Rule: "E-enum over the whole finite domains, real functions executed: (inotify, translate) newEvent on all 2^12 combinations of the twelve inspected IN_* bits x 2^4 housekeeping bits (IN_ISDIR, IN_IGNORED, IN_UNMOUNT, IN_Q_OVERFLOW) x cookie {0,n}: result == reference table, f(a|b)==f(a)|f(b), housekeeping bits never change the operations; " +
-			"(inotify, request) all 2^9 operation subsets x {follow, no-follow} x {file, directory} through AddWith on real paths, the kernel's stored mask read back from /proc/self/fdinfo == reference (every requested operation observable, no unrelated flag; the empty set fails and leaves the set untouched); plus re-Add histories (2-5 AddWith calls for one path with PRNG operation sets - directory, file, symlink followed, symlink not followed, a file replaced under its name between two calls, and one directory under several names: after every call the single kernel mark carries exactly the union of what was requested for the path), an alias-widening case (same directory added again through a symlink with more operations: the new one must be observable) and a behavioural pass: for each single operation a scripted set of real changes must produce only that operation and must produce it; " +
+			"(inotify, request) all 2^9 operation subsets x {follow, no-follow} x {file, directory} through AddWith on real paths, the kernel's stored mask read back from /proc/self/fdinfo == reference (every requested operation observable, no unrelated flag; the empty set fails and leaves the set untouched); plus re-Add histories (2-5 AddWith calls for one path with PRNG operation sets - directory, file, symlink followed, symlink not followed, a file replaced under its name between two calls, one directory under several names, a file under its own name and through a followed symlink with the follow mode varying: after every call the single kernel mark is on the watched file's inode and carries exactly the union of what was requested for it), an alias-widening case (same directory added again through a symlink with more operations: the new one must be observable) and a behavioural pass: for each single operation a scripted set of real changes must produce only that operation and must produce it; " +
 			"(kqueue) the copied backend's newEvent on all 2^11 NOTE_* combinations (Write dropped with Remove, otherwise union-homomorphic), noteAllEvents == DELETE|WRITE|ATTRIB|RENAME, the fflags actually registered per knote class in the simulator, link spelling; " +
 			"(Windows) extracted newEvent on all 2^16 low masks of the sysFS* space (Chmod never), toWindowsFlags on all 2^12 masks, toFSnotifyFlags on every action 0..1023 and PRNG values; xSupports of kqueue/Windows/FEN/inotify over all 2^9 operation sets. distinct_nontrivial = distinct native masks / op sets evaluated with a non-empty result",
 		Assumptions: []string{"reference tables (harness/gen/tmpl/gchecks/c15.go) are written from the documentation of each native API", "Windows and FEN: only the extracted pure functions run (real Win32 constant values); their event loops do not exist on Linux", "kqueue registration is observed on the simulated kqueue"},
@@ -415,9 +415,13 @@ func c15InotifyRequest(c *core.Ctx) {
 	}
 }
 
-// allMasks returns the event bits of every kernel mark of the inotify descriptor.
+// allMasks returns the stored mask (and, in inos, the inode number) of every kernel mark of the inotify descriptor.
 func allMasks(fd int) []uint32 {
-	var l []uint32
+	m, _ := allMarks(fd)
+	return m
+}
+
+func allMarks(fd int) (masks []uint32, inos []uint64) {
 	b, _ := os.ReadFile(fmt.Sprintf("/proc/self/fdinfo/%d", fd))
 	for _, ln := range strings.Split(string(b), "\n") {
 		if !strings.HasPrefix(ln, "inotify wd:") {
@@ -426,11 +430,15 @@ func allMasks(fd int) []uint32 {
 		for _, f := range strings.Fields(ln)[1:] {
 			if strings.HasPrefix(f, "mask:") {
 				v, _ := strconv.ParseUint(f[5:], 16, 64)
-				l = append(l, uint32(v)) // event bits, plus IN_EXCL_UNLINK/IN_ONESHOT if requested
+				masks = append(masks, uint32(v)) // event bits, plus IN_EXCL_UNLINK/IN_ONESHOT if requested
+			}
+			if strings.HasPrefix(f, "ino:") {
+				v, _ := strconv.ParseUint(f[4:], 16, 64)
+				inos = append(inos, v)
 			}
 		}
 	}
-	return l
+	return
 }
 
 // c15InotifyReAdd: histories of several AddWith calls for ONE path with different operation sets. Every
@@ -466,14 +474,14 @@ func c15InotifyReAdd(c *core.Ctx, rng *rand.Rand) {
 	os.WriteFile(filepath.Join(dir, "f"), nil, 0o644)
 	os.Symlink(filepath.Join(dir, "f"), filepath.Join(dir, "lf"))
 	os.Symlink(filepath.Join(dir, "d"), filepath.Join(dir, "ld"))
-	n := 560
+	n := 640
 	if c.Tier == "thorough" {
 		n = 6000
 	}
 	nv := 0
 	for it := 0; it < n; it++ {
-		variant := it % 7 // 0 dir, 1 file, 2 link follow, 3 link no-follow, 4 rotation, 5 the same file under several names, 6 a regular file with the follow mode changing from call to call
-		target := []string{"d", "f", "lf", "lf", "f", "d", "f"}[variant]
+		variant := it % 8 // 0 dir, 1 file, 2 link follow, 3 link no-follow, 4 rotation, 5 the same file under several names, 6 a regular file with the follow mode changing from call to call, 7 a file under its name (any follow mode) and through a followed symlink, alternating
+		target := []string{"d", "f", "lf", "lf", "f", "d", "f", "f"}[variant]
 		p := filepath.Join(dir, target)
 		k := 2 + rng.Intn(4)
 		rotateAt := -1
@@ -512,7 +520,23 @@ func c15InotifyReAdd(c *core.Ctx, rng *rand.Rand) {
 				opts = append(opts, real.VerifWithNoFollow())
 			}
 			pj := p
-			if variant == 5 { // the directory itself, a symlink to it, a spelling that cleans to it
+			if variant == 7 {
+				// the link (followed) and the file itself (sometimes no-follow, which means nothing for a
+				// regular file): always the same inode; the link must never come to be watched itself
+				if rng.Intn(2) == 0 {
+					pj = filepath.Join(dir, "lf")
+					nofollow = false
+					opts = []real.VerifAddOpt{real.VerifWithOps(ops)}
+					hist = append(hist, "Add(lf, "+ops.String()+")")
+				} else {
+					nofollow = rng.Intn(2) == 0
+					opts = []real.VerifAddOpt{real.VerifWithOps(ops)}
+					if nofollow {
+						opts = append(opts, real.VerifWithNoFollow())
+					}
+					hist = append(hist, "Add(f, "+ops.String()+map[bool]string{true: ", no-follow", false: ""}[nofollow]+")")
+				}
+			} else if variant == 5 { // the directory itself, a symlink to it, a spelling that cleans to it
 				sp := []string{"d", "ld", "d/../ld"}[rng.Intn(3)]
 				pj = filepath.Join(dir, sp)
 				hist = append(hist, "Add("+sp+", "+ops.String()+")")
@@ -546,7 +570,24 @@ func c15InotifyReAdd(c *core.Ctx, rng *rand.Rand) {
 			}
 			c.Res.Counters["inotify_readd_adds"]++
 			union |= want
-			ms := allMasks(fd)
+			ms, inos := allMarks(fd)
+			var wantIno uint64
+			{
+				var st unix.Stat_t
+				var e error
+				if variant == 3 {
+					e = unix.Lstat(p, &st) // the link itself
+				} else {
+					e = unix.Stat(p, &st)
+				}
+				if e == nil {
+					wantIno = st.Ino
+				}
+			}
+			if len(ms) == 1 && ms[0] == union && wantIno != 0 && inos[0] != wantIno {
+				c.Violate("inotify-readd-wrong-file", fmt.Sprintf("variant %d (%s) history %v: the single kernel mark is on inode %d, the watched file is inode %d", variant, target, hist, inos[0], wantIno), map[string]interface{}{"history": hist})
+				bad = true
+			}
 			if len(ms) != 1 || ms[0] != union {
 				nv++
 				if nv < 6 {
